@@ -121,6 +121,7 @@ type SeqScn struct {
 	Faults  []simfs.Fault `json:"faults,omitempty"`
 	Direct  *HandleScn    `json:"direct,omitempty"` // C05/C06: direct concurrent drive of the handle table instead of a request history
 	Race    *AttrRaceScn  `json:"race,omitempty"`   // C11: concurrent SETATTR requests for one object instead of a request history
+	CRace   *CreateRaceScn `json:"crace,omitempty"` // C03: concurrent CREATE requests for one name instead of a request history
 	Sched   SchedCfg      `json:"sched"`
 	Segment bool          `json:"segment,omitempty"`
 	UpdAt   int           `json:"upd_at,omitempty"` // runtime option update before this op index (0 = none)
@@ -1826,6 +1827,8 @@ func (r *seqRun) stepC23(name string, op Op, hr handleRef, base *mnode) {
 		r.vio("C23.write-within-limits-dropped", which, "%s: WRITE count=%d (wtmax=%d, transfer size %d) got no reply, the connection was dropped: %v", name, wcount, fi.Wtmax, r.transfer, err)
 		r.cl.Dead = false
 		r.cl.last = time.Time{} // force a reconnect for the following operations
+	} else if wres.Status != 0 && r.faulted() {
+		// an injected backend error landed in this WRITE: it may fail
 	} else if wres.Status != 0 {
 		facts := fmt.Sprintf("status=%d", wres.Status)
 		if sc := r.sc; sc.UpdCfg != nil && sc.UpdAt < 0 && r.transfer < int(fi.Wtmax) && int(wcount) > r.transfer {
